@@ -96,7 +96,7 @@ def get_model(c):
 
 def ks_task(c):
     """c: model case (n_dim >= 2) or univariate case (n_dim == 1), n, rs kind"""
-    rec = dict(kind="ks", exc="", n=c["n"], overall=[], given=[], indep=[], extreme=[], finite=True)
+    rec = dict(kind="ks", exc="", n=c["n"], overall=[], given=[], indep=[], extreme=[], finite=True, fresh=True)
     np.random.seed((c["seed"] + 17) % (2**32 - 1))
     try:
         if c["n_dim"] == 1:
@@ -179,22 +179,28 @@ def fitted_task(c):
     judge the PIT per conditioning region -- in particular the rows whose conditioning value lies
     outside the range of the interval reference values the fit has seen"""
     vc = import_virocon()
-    rec = dict(kind="ks", exc="", n=c["n"], overall=[], given=[], indep=[], extreme=[], finite=True)
+    rec = dict(kind="ks", exc="", n=c["n"], overall=[], given=[], indep=[], extreme=[], finite=True, fresh=True)
     info = {}
     try:
         with warnings.catch_warnings():
             warnings.simplefilter("ignore")
-            if c["source"] == "dataset":
+            if c["source"] in ("dataset", "dataset-omae-wlsq"):
                 from .common import REPO
                 data = vc.read_ec_benchmark_dataset(str(REPO / "datasets" / "ec-benchmark_dataset_A_1year.txt"))
-                dd, fd, _ = vc.get_DNVGL_Hs_Tz()
+                # DNVGL: Weibull (mle) + LogNormal; OMAE2020: exponentiated Weibull fitted by weighted least
+                # squares ([{"method": "wlsq", "weights": "quadratic"}, None]) + LogNormal
+                dd, fd, _ = vc.get_DNVGL_Hs_Tz() if c["source"] == "dataset" else vc.get_OMAE2020_Hs_Tz()
                 model = vc.GlobalHierarchicalModel(dd)
+                if c.get("presample"):          # history: the model object has been sampled before it is fitted
+                    model.draw_sample(1000, random_state=c["seed"] + 9)
                 model.fit(np.asarray(data), fd)
             else:
                 rng = np.random.default_rng(c["seed"])
                 truth = _structure(vc, c["n_dim"], True, rng)
                 data = truth.draw_sample(c["n_data"], random_state=c["seed"] + 1)
                 model = _structure(vc, c["n_dim"], False)
+                if c.get("presample"):
+                    model.draw_sample(1000, random_state=c["seed"] + 9)
                 model.fit(data)
             x = np.asarray(model.draw_sample(c["n"], random_state=rs_of(c["rs"], c["seed"] + 2)), dtype=float)
         n_dim = model.n_dim
@@ -225,9 +231,63 @@ def fitted_task(c):
                     rec["indep"].extend(binned(u[:, i], u[:, k]))
     except Exception as e:  # noqa
         rec["exc"] = f"{type(e).__name__}: {e}"[:200]
-    key = (f"fitted source={c['source']} n_dim={c['n_dim']} n={c['n']} random_state={c['rs']} seed={c['seed']}")
+    key = (f"fitted source={c['source']}{' sampled-before-fit' if c.get('presample') else ''} n_dim={c['n_dim']} "
+           f"n={c['n']} random_state={c['rs']} seed={c['seed']}")
     big = sum(1 for t in rec["extreme"] if t[0] >= 400)
     return [dict(rec=rec, key=key, nontrivial=big > 0, case=c, extreme_regions=big, info=info)]
+
+
+def refit_history_task(c):
+    """one distribution OBJECT: draw_sample -> change it (fit with one of the methods the family
+    supports, or assign parameters) -> draw_sample again.  The second sample must follow the cdf of
+    the CURRENT parameters and be bit-for-bit the sample of a fresh object with equal parameters."""
+    vc = import_virocon()
+    fam, how = c["families"][0], c["how"]
+    rng = np.random.default_rng(c["seed"])
+    pa = M.describe(rng, 1, [None], [fam], None)["dims"][0]["params"]
+    pb = M.describe(rng, 1, [None], [fam], None)["dims"][0]["params"]
+    cls = M.dist_class(vc, fam)
+    out = []
+    np.random.seed((c["seed"] + 23) % (2**32 - 1))
+
+    def ks_rec(obj, x, params):
+        rec = dict(kind="ks", exc="", n=c["n"], overall=[], given=[], indep=[], extreme=[], finite=True, fresh=True)
+        rec["finite"] = bool(np.all(np.isfinite(x))) and x.shape == (c["n"],)
+        if rec["finite"]:
+            xx = wrap_to(params["mu"], x) if fam == "vonmises" else x
+            rec["overall"].append([int(len(x)), d5(ks_uniform(np.asarray(obj.cdf(xx), dtype=float)))])
+        return rec
+    with warnings.catch_warnings():
+        warnings.simplefilter("ignore")
+        obj = cls(**pa)
+        x1 = np.asarray(obj.draw_sample(c["n"], random_state=rs_of(c["rs"], c["seed"] + 1)), dtype=float)
+        out.append(dict(rec=ks_rec(obj, x1, pa), key=f"history first-sample {fam} n={c['n']} seed={c['seed']}",
+                        nontrivial=True, case=c))
+        try:
+            if how == "assign":
+                for k, v in pb.items():
+                    setattr(obj, k, v)
+            else:
+                data = np.asarray(cls(**pb).draw_sample(c["n_data"], random_state=c["seed"] + 2), dtype=float)
+                method, _, weights = how.partition(":")
+                obj.fit(data, method=method, weights=weights or None)
+        except Exception:  # noqa  (a failing fit is not the subject of this property)
+            return out
+        pcur = {k: float(v) for k, v in obj.parameters.items()}
+        if not all(math.isfinite(v) for v in pcur.values()):
+            return out
+        x2 = np.asarray(obj.draw_sample(c["n"], random_state=rs_of(c["rs"], c["seed"] + 3)), dtype=float)
+        rec = ks_rec(obj, x2, pcur)
+        x3 = np.asarray(cls(**pcur).draw_sample(c["n"], random_state=rs_of(c["rs"], c["seed"] + 3)), dtype=float)
+        if c["rs"] != "none":
+            rec["fresh"] = bool(x2.shape == x3.shape and np.array_equal(x2, x3))
+        # non-trivial: under the OLD parameters the new sample would be rejected
+        old = cls(**pa)
+        xo = wrap_to(pa["mu"], x2) if fam == "vonmises" else x2
+        moved = rec["finite"] and d5(ks_uniform(np.asarray(old.cdf(xo), dtype=float))) > 3 * 1190
+    out.append(dict(rec=rec, key=f"history sample-after-{how} {fam} n={c['n']} random_state={c['rs']} seed={c['seed']}",
+                    nontrivial=bool(moved), case=c, refit=True))
+    return out
 
 
 def shape_task(c):
@@ -311,7 +371,8 @@ def hist_task(c):
 
 
 def run_task(c):
-    return {"ks": ks_task, "shape": shape_task, "hist": hist_task, "fitted": fitted_task}[c["task"]](c)
+    return {"ks": ks_task, "shape": shape_task, "hist": hist_task, "fitted": fitted_task,
+            "refit_history": refit_history_task}[c["task"]](c)
 
 
 # ---- case selection ------------------------------------------------------------------------
@@ -371,9 +432,23 @@ def make_tasks(ctx, cfgs, hists):
     for rep in range(ctx.pick(2, 8)):
         for nd in (2, 3):
             tasks.append(dict(task="fitted", source="synthetic", n_dim=nd, n_data=20000, n=ctx.pick(200_000, 400_000),
-                              rs=["int", "int0", "generator", "none"][(rep + nd) % 4],
+                              rs=["int", "int0", "generator", "none"][(rep + nd) % 4], presample=bool(rep % 2),
                               seed=int(rng.integers(1, 2**31 - 1))))
     tasks.append(dict(task="fitted", source="dataset", n_dim=2, n=ctx.pick(200_000, 1_000_000), rs="int", seed=ctx.seed + 5))
+    for pre in (True, False):
+        tasks.append(dict(task="fitted", source="dataset-omae-wlsq", n_dim=2, n=ctx.pick(200_000, 1_000_000), rs="int",
+                          seed=ctx.seed + 6, presample=pre))
+    tasks.append(dict(task="fitted", source="dataset", n_dim=2, n=200_000, rs="generator", seed=ctx.seed + 8, presample=True))
+    # histories on one distribution object: sample -> fit (every method the family supports) / assign -> sample
+    hows = {fam: ["mle", "assign"] for fam in M.FAMILIES}
+    hows["expweibull"] = ["mle", "lsq", "wlsq:linear", "wlsq:quadratic", "wlsq:cubic", "assign"]
+    for rep in range(ctx.pick(1, 4)):
+        for fam in M.FAMILIES:
+            for how in hows[fam]:
+                k += 1
+                tasks.append(dict(task="refit_history", n_dim=1, cond=[None], sh=[0], families=[fam], how=how,
+                                  rs=["int", "generator", "int0", "none"][k % 4], n=100_000, n_data=3000,
+                                  seed=int(rng.integers(1, 2**31 - 1))))
     # shapes: sizes 1, 2, 1000, 1e5 (1e6) x random_state kinds, every family and a few models
     sizes = [1, 2, 1000, 100_000] + ([1_000_000] if not ctx.quick else [])
     for fam in M.FAMILIES:
@@ -422,7 +497,7 @@ def selftest(ctx):
     gd = [dict(obj=1, n=4, rs="gen1"), dict(obj=1, n=4, rs="gen2"), dict(obj=1, n=4, rs="gen1")]
     nn = [dict(obj=1, n=4, rs="none"), dict(obj=2, n=4, rs="seedA"), dict(obj=1, n=4, rs="none")]
     ok = dict(kind="ks", exc="", n=100000, overall=[[100000, 1100]], given=[[12500, 3300]], indep=[],
-              extreme=[[4000, 5900]], finite=True)
+              extreme=[[4000, 5900]], finite=True, fresh=True)
     muts = [("SameSeedSameSample", dict(kind="hist", exc="", draws=draws, dig=[1, 2, 3])),
             ("DifferentSeedsDiffer", dict(kind="hist", exc="", draws=draws, dig=[1, 1, 1])),
             ("GeneratorAdvances", dict(kind="hist", exc="", draws=gd, dig=[1, 1, 1])),
@@ -435,6 +510,7 @@ def selftest(ctx):
             ("ConditionalOnSameRowValue", dict(ok, given=[[12500, 3400]])),
             ("ComponentsIndependent", dict(ok, indep=[[12500, 40000]])),
             ("ConditionalOutsideFittedRange", dict(ok, extreme=[[4000, 6000]])),
+            ("SameAsFreshObject", dict(ok, fresh=False)),
             ("SampleFinite", dict(ok, finite=False))]
     good = [dict(ok), dict(kind="hist", exc="", draws=draws, dig=[1, 1, 2]),
             dict(kind="hist", exc="", draws=gd, dig=[1, 1, 2])]
@@ -495,6 +571,10 @@ def run(ctx):
     ncmp = sum(len(r["overall"]) + len(r["given"]) + len(r["indep"]) for r in recs if r["kind"] == "ks")
     colsens = sum(1 for o in meta if o.get("colsens"))
     ctx.notes["models_sensitive_to_the_conditioning_column"] = colsens
+    nrefit = sum(1 for o in meta if o.get("refit") and o["nontrivial"])
+    ctx.notes["samples_after_fit_or_assignment_with_moved_parameters"] = nrefit
+    if not ctx.violations and nrefit < 8:
+        raise Machinery(f"vacuous: only {nrefit} sample -> fit -> sample histories changed the distribution")
     ext = sum(o.get("extreme_regions", 0) for o in meta)
     ctx.notes["fitted_models"] = sum(1 for o in meta if "extreme_regions" in o)
     ctx.notes["extreme_conditioning_regions_judged"] = ext
